@@ -509,3 +509,161 @@ pub fn c11(ctx: &mut Ctx) {
     }
     ctx.flush_model("C11-marlin");
 }
+
+// ------------------------------------------------------------------------------------------------
+// C06 (model-backed): open_combinations / check_combinations of MarlinKZG10 against the model
+// ------------------------------------------------------------------------------------------------
+fn lcs_args(r: crate::wire::Req, lcs: &[ark_poly_commit::LinearCombination<Fr>]) -> crate::wire::Req {
+    use crate::wire::{self, Val};
+    use ark_poly_commit::LCTerm;
+    r.arg("lclabels", Val::L(lcs.iter().map(|l| wire::label(l.label())).collect()))
+        .arg("lccoeffs", Val::L(lcs.iter().map(|l| wire::fes(&l.iter().map(|t| t.0).collect::<Vec<_>>())).collect()))
+        .arg("lcone", Val::L(lcs.iter().map(|l| Val::L(l.iter().map(|t| wire::nat(t.1.is_one() as usize)).collect())).collect()))
+        .arg("lcterms", Val::L(lcs.iter().map(|l| Val::L(l.iter().map(|t| match &t.1 { LCTerm::One => wire::label(""), LCTerm::PolyLabel(s) => wire::label(s) }).collect())).collect()))
+}
+
+pub fn c06(ctx: &mut Ctx) {
+    use ark_poly_commit::{Evaluations, LCTerm, LinearCombination, PolynomialCommitment, QuerySet};
+    let n = ctx.n(25, 300);
+    for i in 0..n {
+        let id0 = format!("C06/marlin-model/{}", i);
+        if !ctx.selected(&id0) { continue; }
+        let mut rng = rng_for(ctx.seed, "C06/marlin-model", i as u64);
+        let npoly = range(&mut rng, 2, 4);
+        let c = match new_case(ctx, &mut rng, &id0, npoly) { Some(c) => c, None => continue };
+        let cs = match c.comm_scalars() { Some(x) => x, None => continue };
+        // combinations: in-policy ones and (sometimes) one that violates the degree-bound policy or names
+        // an unknown polynomial
+        let unbounded: Vec<usize> = (0..npoly).filter(|&k| c.polys[k].degree_bound().is_none()).collect();
+        let bounded: Vec<usize> = (0..npoly).filter(|&k| c.polys[k].degree_bound().is_some()).collect();
+        let nlc = range(&mut rng, 1, 3);
+        let mut lcs: Vec<LinearCombination<Fr>> = vec![];
+        let mut kind = "in-policy";
+        for j in 0..nlc {
+            let mut lc = LinearCombination::empty(format!("lc{}", j));
+            let roll = range(&mut rng, 0, 9);
+            if roll == 0 && !bounded.is_empty() {
+                // policy violation: bounded polynomial mixed with something else / scaled
+                let b = bounded[0];
+                match range(&mut rng, 0, 2) {
+                    0 => { lc.push((Fr::from(1u64), LCTerm::PolyLabel(c.polys[b].label().clone()))); lc.push((Fr::rand(&mut rng), LCTerm::One)); }
+                    1 => { lc.push((Fr::from(2u64), LCTerm::PolyLabel(c.polys[b].label().clone()))); }
+                    _ => { lc.push((Fr::from(1u64), LCTerm::PolyLabel(c.polys[b].label().clone()))); lc.push((Fr::rand(&mut rng), LCTerm::PolyLabel(c.polys[(b + 1) % npoly].label().clone()))); }
+                }
+                kind = "policy-violation";
+            } else if roll == 1 {
+                lc.push((Fr::rand(&mut rng), LCTerm::PolyLabel("nosuch".to_string())));
+                kind = "unknown-label";
+            } else if !bounded.is_empty() && (unbounded.is_empty() || roll == 2) {
+                lc.push((Fr::from(1u64), LCTerm::PolyLabel(c.polys[bounded[range(&mut rng, 0, bounded.len() - 1)]].label().clone())));
+            } else if !unbounded.is_empty() {
+                let nt = range(&mut rng, 1, 5);
+                for _ in 0..nt {
+                    let coeff = match range(&mut rng, 0, 4) { 0 => Fr::zero(), 1 => Fr::from(1u64), 2 => -Fr::from(1u64), _ => Fr::rand(&mut rng) };
+                    if range(&mut rng, 0, 4) == 0 { lc.push((coeff, LCTerm::One)); }
+                    else { lc.push((coeff, LCTerm::PolyLabel(c.polys[unbounded[range(&mut rng, 0, unbounded.len() - 1)]].label().clone()))); }
+                }
+            } else { continue; }
+            lcs.push(lc);
+        }
+        if lcs.is_empty() { continue; }
+        // query set over the combinations, labels possibly sharing a point value
+        let mut qs: QuerySet<Fr> = QuerySet::new();
+        let mut ev: Evaluations<Fr, Fr> = Evaluations::new();
+        let nl = range(&mut rng, 1, 3);
+        let mut pts: Vec<Fr> = vec![];
+        for l in 0..nl {
+            let pt = if l > 0 && coin(&mut rng) { pts[0] } else { Fr::rand(&mut rng) };
+            pts.push(pt);
+            for (k, lc) in lcs.iter().enumerate() {
+                if coin(&mut rng) || (l == 0 && k == 0) {
+                    qs.insert((lc.label().clone(), (format!("pt{}", l), pt)));
+                    let mut v = Fr::zero();
+                    for (co, t) in lc.iter() {
+                        match t { LCTerm::One => v += *co, LCTerm::PolyLabel(s) => { if let Some(p) = c.polys.iter().find(|p| p.label() == s) { v += *co * p.evaluate(&pt); } } }
+                    }
+                    ev.insert((lc.label().clone(), pt), v);
+                }
+            }
+        }
+        // prover
+        let mut sp = LogSponge::fresh();
+        let r = guarded(|| PC::open_combinations(&c.ck, &lcs, &c.polys, &c.comms, &qs, &mut sp, &c.rands, Some(&mut rng.clone())));
+        let xis = sp.challenges();
+        let req = crate::marlin::queries_args(lcs_args(comms_args(c.rands_args(c.polys_args(c.base("marlin.open_combinations"), &c.polys), &c.rands), &cs), &lcs), &qs)
+            .arg("xis", crate::wire::fes(&{ let mut x = xis.clone(); let mut e = rng_for(3, &id0, 5); while x.len() < 2 * qs.len() + 2 { x.push(Fr::rand(&mut e)); } x }));
+        let answered = matches!(r, Ok(Ok(_)));
+        match &r {
+            Ok(Ok(p)) => ctx.ses.ask(&id0, req, ImplOutcome::Ok(vec![
+                ("ws".into(), Expect::G1s(p.proof.iter().map(|x| x.w).collect())),
+                ("rvs".into(), Expect::Raw(crate::wire::Val::L(p.proof.iter().map(|x| crate::wire::opt_fe(&x.random_v)).collect()))),
+            ])),
+            Ok(Err(e)) => ctx.ses.ask(&id0, req, ImplOutcome::Refuse(err_kind(e))),
+            Err(a) => ctx.ses.ask(&id0, req, ImplOutcome::Refuse(a.clone())),
+        }
+        if kind == "in-policy" && !answered {
+            ctx.rep.expect_fail(&id0, "marlin/lc-honest-refused", "in-policy combination refused", replay(&c, &id0, ctx.seed, kind));
+        }
+        if kind != "in-policy" && answered && kind == "policy-violation" {
+            ctx.rep.expect_fail(&id0, "marlin/lc-bound-dropped", "combination dropping an enforced degree bound was opened", replay(&c, &id0, ctx.seed, kind));
+        }
+        ctx.rep.count(&format!("marlin/lc-{}", kind));
+        ctx.rep.case(&format!("{} lc kind={} lcs={} queries={} answered={}", c.desc(), kind, lcs.len(), qs.len(), answered), Some(format!("marlin-lc/{}/{}/{}", kind, lcs.len(), qs.len())));
+        let proof = match r { Ok(Ok(p)) => p, _ => continue };
+        // verifier: honest + perturbed values, must-accept / must-refuse and equals-model
+        let lcc = match lc_case(&c, &lcs) { Some(x) => x, None => continue };
+        let ws = group_witness_scalars(&lcc, &qs, &xis);
+        if ws.len() != proof.proof.len() || !ws.iter().zip(proof.proof.iter()).all(|(w, p)| g1(*w) == p.w) {
+            ctx.rep.expect_fail(&id0, "marlin/witness-not-key-defined", "combination witness differs from the trapdoor-defined value", replay(&c, &id0, ctx.seed, "lc witness"));
+            continue;
+        }
+        let rvs: Vec<Option<Fr>> = proof.proof.iter().map(|p| p.random_v).collect();
+        let mut variants: Vec<(&str, Vec<LinearCombination<Fr>>, Evaluations<Fr, Fr>)> = vec![("honest", lcs.clone(), ev.clone())];
+        {
+            let keys: Vec<_> = ev.keys().cloned().collect();
+            let mut e2 = ev.clone();
+            *e2.get_mut(&keys[range(&mut rng, 0, keys.len() - 1)]).unwrap() += rand_nonzero(&mut rng);
+            variants.push(("value", lcs.clone(), e2));
+            // a constant term changed on the verifier's side
+            if let Some(li) = lcs.iter().position(|l| l.iter().any(|t| t.1.is_one())) {
+                let mut terms: Vec<(Fr, LCTerm)> = lcs[li].iter().cloned().collect();
+                let pos = terms.iter().position(|t| t.1.is_one()).unwrap();
+                terms[pos].0 += rand_nonzero(&mut rng);
+                let mut l2 = lcs.clone();
+                l2[li] = LinearCombination::new(lcs[li].label().clone(), terms);
+                if qs.iter().any(|q| &q.0 == lcs[li].label()) { variants.push(("constant", l2, ev.clone())); }
+            }
+        }
+        for (vname, l2, e2) in variants {
+            let id = format!("{}/{}", id0, vname);
+            let mut vs = LogSponge::fresh();
+            let rs = crate::kzg::replay_u128(&rng, ws.len() + 1);
+            let out = guarded(|| PC::check_combinations(&c.vk, &l2, &c.comms, &qs, &e2, &proof, &mut vs, &mut rng));
+            let acc = matches!(out, Ok(Ok(true)));
+            {
+                let mut x = vs.challenges();
+                let mut e = rng_for(4, &id, 6);
+                while x.len() < 2 * qs.len() + 2 { x.push(Fr::rand(&mut e)); }
+                let req = crate::marlin::evals_args(crate::marlin::queries_args(lcs_args(comms_args(c.base("marlin.check_combinations"), &cs), &l2), &qs), &e2)
+                    .arg("ws", crate::wire::fes(&ws))
+                    .arg("rvs", crate::wire::Val::L(rvs.iter().map(|x| crate::wire::opt_fe(x)).collect()))
+                    .arg("xis", crate::wire::fes(&x))
+                    .arg("rs", crate::wire::fes(&rs));
+                ctx.ses.ask(&id, req, match &out {
+                    Ok(Ok(b)) => ImplOutcome::Ok(vec![("b".into(), Expect::Bool(*b))]),
+                    Ok(Err(e)) => ImplOutcome::Refuse(err_kind(e)),
+                    Err(a) => ImplOutcome::Refuse(a.clone()),
+                });
+            }
+            if vname == "honest" && !acc {
+                ctx.rep.expect_fail(&id, "marlin/lc-honest-rejected", &format!("honest combination proof not accepted: {:?}", out.as_ref().map(|r| r.as_ref().map_err(|e| err_kind(e)))), replay(&c, &id, ctx.seed, vname));
+            }
+            if vname != "honest" && acc {
+                ctx.rep.expect_fail(&id, &format!("marlin/lc-false-accepted/{}", vname), "changed combination statement accepted", replay(&c, &id, ctx.seed, vname));
+            }
+            ctx.rep.count(&format!("marlin/lc-check-{}", vname));
+            ctx.rep.case(&format!("{} lc check {} acc={}", c.desc(), vname, acc), Some(format!("marlin-lc-check/{}/{}", vname, i)));
+        }
+    }
+    ctx.flush_model("C06-marlin");
+}
